@@ -264,6 +264,8 @@ def run(rep, tier):
         rep.call(simd_rules.lane_bypass, rep, prog, "C07.lane-bypass")
         rep.call(alpha_rules.zero_guard, rep, prog, "C07.zero-guard")
         rep.call(supersampling_alpha, rep, prog, "C07.supersampling-alpha")
+        from ..engines import siblings
+        rep.call(siblings.forwarded_args, rep, prog, "C07.forwarded-options")
         from . import c09
         rep.call(c09.sizing, rep, prog, "C07.premultiply-whole")
         rep.call(c09.write_before_read, rep, prog, "C07.premultiply-before-read")
